@@ -24,7 +24,7 @@ func init() {
 	fw.Register(&fw.Prop{
 		ID: "C09",
 		Rule: "hostile-argument monitor: every public entry point (7 constructors, Concat, BackPropagate, all Tensor methods; component constructors and Forward/Compute/Accumulate/Result/Update/Init/Weights) is called under recover() with: every integer of [-2,6] for each dim/n/size argument against a pool of 60 receiver shapes of rank 0..5; dims/shape lists of length 0..5 over [-2,6] (exhaustive to length 2, sampled above) and nil; At indexes of length 0..rank+1; Slice/Patch ranges with From,To in [-2,6] (all 81 per dimension for rank <= 2, sampled above), nil and over-long indexes; nil / foreign / every-other-pool-shape tensor operands; rectangular, ragged-at-every-level, empty-at-every-level and nil nested data of depth 1..4; nil / zero / negative / NaN configuration values; initializers returning nil, errors or wrongly shaped tensors. " +
-			"Oracle: a panic is a violation; the reference precondition predicate decides whether an error (with a nil result) or a result (nil error, Shape = the defined shape, NElems = its product) is required. Non-trivial: every call is (the space is the argument space); distinct = (entry point, argument class, outcome class). Later addition: BackPropagate called again over graphs that were already back-propagated (root twice, interior then root then leaf, two heads then the first again) for 40+ single-operation graphs: any outcome but a panic.",
+			"Oracle: a panic is a violation; the reference precondition predicate decides whether an error (with a nil result) or a result (nil error, Shape = the defined shape, NElems = its product) is required. Non-trivial: every call is (the space is the argument space); distinct = (entry point, argument class, outcome class). Later addition: BackPropagate called again over graphs that were already back-propagated (root twice, interior then root then leaf, two heads then the first again) for 50+ single-operation graphs (binary operations with the trunk as both operands, as the first, as the second): any outcome but a panic; BackPropagate over graphs from the C01 program generator: nil error and no panic from the root, no panic from a second random node.",
 		Assumptions: []string{
 			"where the documentation fixes no outcome (foreign Tensor implementations handed to component entry points) only 'no panic' is demanded",
 			"a child process logs the case index before executing it, so a fatal runtime error still names its witness",
@@ -456,6 +456,37 @@ func runC09(c *fw.Ctx) {
 	for _, s := range [][]int{{}, {3}, {2, 3}, {2, 1, 2}, {3, 3}} {
 		s := s
 		c.Case(func(k *fw.K) { c09RepeatedBackprop(k, s) })
+	}
+
+	// ---------- BackPropagate over generated VALID graphs (the C01 program generator): nil error, no panic, from the root and then from a random node ----------
+	for i := 0; i < c.Pick(1500, 30000); i++ {
+		c.Case(func(k *fw.K) {
+			p, _ := genProgram(k.Rng, progOpts{MinInstr: 2, MaxInstr: 12, MaxLeaves: 3, MaxRank: 3, MaxDim: 3})
+			root := len(p) - 1
+			second := k.Rng.Intn(len(p))
+			k.Case = map[string]any{"entry": "BackPropagate over a generated graph", "program": p, "then_from": second}
+			k.Key("BackPropagate-graph/%s/%d", p[root].Op, len(p))
+			k.Count("calls", 2)
+			var err error
+			stage := "building the graph"
+			if pn := call(func() {
+				var ts []tensor.Tensor
+				ts, err = rt.Run(p)
+				if err != nil {
+					return
+				}
+				stage = "BackPropagate(root)"
+				if err = tensor.BackPropagate(ts[root]); err != nil {
+					return
+				}
+				stage = "a second BackPropagate from another node (any outcome but a panic)"
+				_ = tensor.BackPropagate(ts[second])
+			}); pn != nil {
+				k.Failf("%s: PANIC: %v", stage, pn)
+			} else if err != nil {
+				k.Failf("%s failed on a valid graph: %v", stage, err)
+			}
+		})
 	}
 
 	// ---------- components ----------
@@ -1140,6 +1171,11 @@ func c09RepeatedBackprop(k *fw.K, shape []int) {
 	if rank >= 1 {
 		ins = append(ins, ref.Instr{Op: "dot", In: []int{0, 0}}, ref.Instr{Op: "concat", In: []int{0, 0}}, ref.Instr{Op: "patch", In: []int{0, 0}})
 	}
+	for _, op := range []string{"add", "mul", "div", "elmax", "patch", "concat"} { // second operand a different tracked leaf (F = 1) / first operand (F = 2)
+		if rank >= 1 || (op != "patch" && op != "concat") {
+			ins = append(ins, ref.Instr{Op: op, In: []int{0, 0}, F: 1}, ref.Instr{Op: op, In: []int{0, 0}, F: 2})
+		}
+	}
 	for _, in := range ins {
 		for variant := 0; variant < 3; variant++ {
 			in, variant := in, variant
@@ -1149,12 +1185,19 @@ func c09RepeatedBackprop(k *fw.K, shape []int) {
 				xs = []tensor.Tensor{x, x}
 			}
 			k.Count("calls", 3)
-			k.Key("BackPropagate-again/%s/%d", in.Op, variant)
+			k.Key("BackPropagate-again/%s/%d/%v", in.Op, variant, in.F)
 			if p := call(func() {
 				h := x.Scale(1.5) // a trunk
 				ys := []tensor.Tensor{h}
 				if len(in.In) == 2 {
 					ys = []tensor.Tensor{h, h}
+					other := rt.MustLeaf(UniquePos(k.Rng, shape, 1.3, 2.2), true)
+					switch in.F {
+					case 1:
+						ys[1] = other
+					case 2:
+						ys[0] = other
+					}
 				}
 				_ = xs
 				y, err := rt.Exec(in, ys)
